@@ -12,6 +12,33 @@ CHECKS = {
  "C08": ("exploration", "strict wire decoders over whole reply streams with opaque/order attribution", "§3 C08",
          "The complete reply stream of pipelined connections is decoded strictly; every frame/line is attributed to a request, shape compared with the model, sentinel detects surplus or missing output; single requests are awaited without further input.",
          "reply order across opaques not required; opcode echo not required"),
+ "C04": ("exploration", "differential reference-model monitor + backend request-log monitor on chunked.Handler", "§3 C04",
+         "chunked.Handler runs against the fake backend for a dense grid of value/key lengths and random command sequences; results are compared with the reference map and every backend request is checked to be derived from the client key, unshared, and gone after delete.",
+         "no concurrency, loss or faults here (C05, C10); orphan chunks beyond the current count are counted, not judged"),
+ "C05": ("fault_enumeration", "exhaustive entry-loss enumeration + controlled-scheduler interleaving of real handlers, membership oracle", "§3 C05",
+         "Every subset of a value's backend entries is removed (exhaustive up to n chunks) and every interleaving at backend-request granularity of two sets and a reader is executed on the real handler (DFS, complete for small programs); each read must be a miss or a fully written value.",
+         "loss = disappearance of whole entries; each backend request is atomic; scheduling points are backend requests only"),
+ "C06": ("exploration", "differential monitor batched vs direct handler + per-caller exact models under the race detector", "§3 C06",
+         "The same commands go through the batching pool and a direct connection on identical fake stores and must agree (and agree with the model); concurrent callers with private keys each check an exact model; option grid incl. pool growth through the hook.",
+         "no connection loss (C13); batching compositions are those the OS scheduler produced, reported as observed burst sizes"),
+ "C07": ("exploration", "intent round-trip monitor on the real parsers with consumed-byte accounting over segmenting readers", "§3 C07",
+         "Well-formed pipelines are parsed by rend's parsers from a reader cut at every offset / bytewise / field boundaries; decoded structs are compared with the intent and consumed bytes with encoded lengths; protocol choice observed on memproxy.",
+         "well-formed input only (C11 covers malformed); default bufio size"),
+ "C11": ("exploration", "parser monitors (panic, allocation bound, read count) over grid/mutation/fuzz inputs + server-level liveness probes", "§3 C11",
+         "Arbitrary bytes are fed to the real parsers under panic/allocation/read-count monitors (exhaustive header grid, mutations, native coverage-guided fuzzing) and to the real memproxy, which must reply or close, stay alive and not wait for a bogus length.",
+         "allocation measured as Go heap allocation with a 4 MiB constant; inputs consistently declaring > 1 MiB skipped"),
+ "C16": ("exploration", "pure observation of the backend request log against the slab arithmetic of the statement", "§3 C16",
+         "For every key length 1..250 and value lengths at every chunk boundary the chunk writes seen by the fake backend must have one value length per key length, fit the 1184-byte slab, number ceil(len/payload), share the metadata's token; metadata is 40 bytes.",
+         "67-byte overhead and 1184-byte slab are the statement's constants"),
+ "C17": ("exploration", "sequential differential monitor + race detector / crash monitor on concurrent goroutines", "§3 C17",
+         "inmem.New() is compared with the reference map over random sequences and certain-by-construction expiry scenarios; 2..32 goroutines share the singleton under the race detector with per-goroutine exact models, exit status and stderr as liveness monitors.",
+         "relative TTLs only; expiry checks stay >= 1 s away from the second boundary"),
+ "C18": ("exploration", "read-back of the real /metrics endpoint against exact sums/multisets + hook sweeps of bucket index and bit count, race detector", "§3 C18",
+         "Counters after concurrent increments must equal exact sums; histogram count/min/max/percentile membership over consecutive periods and with a concurrent scraper; bucket index monotone with bound >= value on boundary/random sweeps; assembly and portable bit count both against math/bits.",
+         "sampling mode unused by registered histograms; periods kept below the 32768-slot ring"),
+ "C19": ("exploration", "metamorphic monitor (permutation / removal / balance) on the real ring with boundary probes and collision search, end-to-end node logs", "§3 C19",
+         "The real Continuum routes random keys and every ring point +-1 identically for all permutations, re-routes only the removed node's keys, gives every node a share; label sets with colliding ring points are searched; set/get through two handlers must reach the same fake TCP node.",
+         "weights are constant 1 in the code; ring points are recomputed only to place probes"),
 }
 NOT_YET = {}
 
